@@ -13,6 +13,7 @@ mod fifo;
 mod gen;
 mod mcp;
 mod midas;
+mod names;
 mod pack;
 mod reco;
 mod sim;
@@ -146,6 +147,14 @@ fn main() {
         "reco" => {
             let mut run = Runner::new(&args);
             reco::run(&mut run, args.get("in"), args.num("seed", 1), args.get("tier") == Some("thorough"));
+            run.finish();
+        }
+        "names" => {
+            let mut run = Runner::new(&args);
+            if let Some(p) = args.get("in") {
+                names::replay(&mut run, p);
+            }
+            names::run(&mut run, args.get("tier") == Some("thorough"), args.num("maxrun", 20000) as u32);
             run.finish();
         }
         "config" => {
